@@ -90,7 +90,7 @@ def main():
         }],
         "checks": checks,
         "not_applicable": na,
-        "notes": "Exit 0 held / 1 VIOLATION / 2 harness error. 12 fix: commits in /repo are listed in known_findings.jsonl (status fixed, each with a demonstration under findings/); one known finding (C19 sanitised-name collision). ./check selftest = determinism; ./check mutants = 41 hand-written + 112 independently written breaking changes (seeded/): all caught except two recorded in their meta.json. See DESIGN.md sections 9-11.",
+        "notes": "Exit 0 held / 1 VIOLATION / 2 harness error. 12 fix: commits in /repo are listed in known_findings.jsonl (status fixed, each with a demonstration under findings/); one known finding (C19 sanitised-name collision). ./check selftest = determinism; ./check mutants = 41 hand-written + 119 independently written breaking changes (seeded/): all caught except two recorded in their meta.json. See DESIGN.md sections 9-11.",
     }
     json.dump(m, open("MANIFEST.json", "w"), indent=1)
 
